@@ -78,3 +78,34 @@ pub fn generate(seed: u64) -> String {
     }
     out
 }
+
+/// second frozen table: points at the hard places (face seams incl. edge midpoints, dodecahedron
+/// vertices, face centres, antimeridian), every resolution
+pub fn generate_seams(seed: u64) -> String {
+    use crate::geocorr::{adjacent_faces, edge_point, projection_point};
+    use a5::coordinate_systems::{Radians, Spherical};
+    use a5::core::coordinate_transforms::to_lon_lat;
+    let mut rng = Rng::new(seed);
+    let mut out = String::new();
+    out.push_str("# golden table 2 for C06 (hard places): generated once from the reference release (see golden/README)\n");
+    let mut push = |out: &mut String, t: f64, p: f64, res: i32| {
+        let ll = to_lon_lat(Spherical::new(Radians::new_unchecked(t), Radians::new_unchecked(p)));
+        let (lon, lat) = (ll.longitude(), ll.latitude().clamp(-90.0, 90.0));
+        let (pid, ok) = stable_lookup(lon, lat, res);
+        out.push_str(&format!("P {:016x} {:016x} {} {:016x} {}\n", lon.to_bits(), lat.to_bits(), res, pid, ok as u8));
+    };
+    for k in 0..36_000 {
+        let res = (k % 30) as i32;
+        let (t, p) = match k % 3 {
+            0 => {
+                let (i, j) = adjacent_faces(&mut rng);
+                let eps = 10f64.powi(-(rng.range_i(3, 9) as i32)) * if rng.chance(1, 2) { 1.0 } else { -1.0 };
+                let along = (rng.unit() - 0.5) * if rng.chance(1, 2) { 0.03 } else { 0.7 };
+                edge_point(i, j, along, eps)
+            }
+            _ => projection_point(&mut rng),
+        };
+        push(&mut out, t, p, res);
+    }
+    out
+}
